@@ -80,7 +80,9 @@ def cases(ctx: Ctx, res: Result):
         res.count('shape:' + gp.shape_key(phens)[:40])
         yield Case(phens, ctx.rng.choice((0, 0, 3)), ev_ops(gp.random_stream(ctx.rng, ctx.rng.randint(5, 30)),
                                                             kind=ctx.rng.choice(('s', 'mixed')),
-                                                            clock=ctx.rng.choice(('arrival', 'skewed', 'skewed', 'same'))), 'rnd')
+                                                            clock=ctx.rng.choice(('arrival', 'skewed', 'skewed', 'same'))),
+                   # a third: numbers that are not `int` objects, typed predicates that cast them (predlang OPAQUE)
+                   ('rnd+opaque' if ctx.rng.random() < 0.34 else 'rnd') + ('+bomb' if ctx.rng.random() < 0.25 else ''))
 
 
 def run(ctx: Ctx) -> Result:
